@@ -7,6 +7,7 @@ pub mod diverge;
 pub mod equiv;
 pub mod expr;
 pub mod iofault;
+pub mod memsafe;
 pub mod parser;
 pub mod smallvec;
 pub mod tape;
@@ -18,7 +19,7 @@ use crate::json::J;
 
 pub fn parts(prop: &str) -> Option<Vec<(String, &'static str)>> {
     Some(match prop {
-        "C01" | "C03" | "C04" | "C05" | "C07" | "C08" | "C09" | "C11" | "C12" | "C14" | "C15" | "C18" => {
+        "C01" | "C03" | "C04" | "C05" | "C06" | "C07" | "C08" | "C09" | "C10" | "C17" | "C11" | "C12" | "C14" | "C15" | "C18" => {
             vec![(prop.to_string(), "release")]
         }
         "C02" => vec![("C02.release".into(), "release"), ("C02.relda".into(), "relda")],
@@ -34,6 +35,9 @@ pub fn worker(ctx: &mut WorkerCtx) {
         "C03" => equiv::worker(ctx, "C03", Backend::BaseJit),
         "C04" => equiv::worker(ctx, "C04", Backend::Inplace),
         "C05" => diverge::worker(ctx),
+        "C06" => memsafe::c06_worker(ctx),
+        "C10" => memsafe::c10_worker(ctx),
+        "C17" => memsafe::c17_worker(ctx),
         "C07" => budget::worker(ctx),
         "C08" => iofault::worker(ctx),
         "C09" => tape::worker(ctx),
@@ -56,6 +60,9 @@ pub fn info(prop: &str, tier: Tier) -> CheckInfo {
         "C03" => equiv::info(tier, "C03", Backend::BaseJit),
         "C04" => equiv::info(tier, "C04", Backend::Inplace),
         "C05" => diverge::info(tier),
+        "C06" => memsafe::info("C06", tier),
+        "C10" => memsafe::info("C10", tier),
+        "C17" => memsafe::info("C17", tier),
         "C07" => budget::info(tier),
         "C08" => iofault::info(tier),
         "C09" => tape::info(tier),
@@ -108,6 +115,7 @@ fn replay_exec(j: &J) -> (bool, String) {
         "C04" => equiv::replay_program(&mut ctx, "C04", Backend::Inplace, &program),
         "C05" => diverge::replay_program(&mut ctx, &program),
         "C07" => budget::replay_program(&mut ctx, &program),
+        "C06" | "C10" | "C17" => memsafe::replay_program(&mut ctx, prop, &program),
         "C08" => iofault::replay_program(&mut ctx, &program),
         _ => return (false, format!("no replay for property {prop}")),
     }
